@@ -16,6 +16,9 @@ func (st *programState) evaluateExpr(expr parser.ValueExpr) (Value, InterpreterE
 	case *parser.StringLiteral:
 		return String(expr.String), nil
 	case *parser.RatioLiteral:
+		if expr.HasZeroDenominator() {
+			return nil, DivideByZero{Range: expr.Range, Numerator: expr.Numerator}
+		}
 		return Portion(*expr.ToRatio()), nil
 	case *parser.NumberLiteral:
 		return MonetaryInt(*big.NewInt(int64(expr.Number))), nil
